@@ -44,6 +44,9 @@ type SliceV struct {
 type StrV struct {
 	Arr      *ByteArr
 	Off, Len *Term
+	// Alias != 0: a string made by reinterpreting memory (unsafe pointer cast, unsafe.String): its bytes are
+	// whatever the byte object Alias holds when the string is looked at (Arr is nil); see Engine.sres.
+	Alias ObjID
 }
 
 type StructV struct{ F []Value }
@@ -260,7 +263,7 @@ func (s StrV) constString() (string, bool) {
 	if !s.Len.IsConst() || !s.Off.IsConst() {
 		return "", false
 	}
-	if s.Arr.kind == baLit {
+	if s.Arr != nil && s.Arr.kind == baLit {
 		o, l := s.Off.K, s.Len.K
 		if o+l <= uint64(len(s.Arr.lit)) {
 			return s.Arr.lit[o : o+l], true
